@@ -1,5 +1,6 @@
 #include "cap.hpp"
-Counters counters = {0, 0, 0, 0, 0, 0};
+#include <new>
+Counters counters = {0, 0, 0, 0, 0, 0, 0};
 static Obj *pool[4] = {0, 0, 0, 0};
 static int libarr[8] = {10, 11, 12, 13, 14, 15, 16, 17};
 Obj *make(int v) { return new Obj(v); }
@@ -13,3 +14,18 @@ Other *makeOther() { return new Other(); }
 int *newints(int n) { int *p = (int *)std::malloc(sizeof(int) * (n > 0 ? n : 1)); for (int i = 0; i < n; ++i) p[i] = 40 + i; ++counters.ints_live; ++counters.ints_made; return p; }
 int *libints(int n) { (void)n; return libarr; }
 const std::string name(const Obj &o) { return std::string("obj") + std::to_string(o.get()); }
+// a pool of objects owned by the library; acquire hands one out, release_obj takes it back
+static Obj *slots[64];
+static bool used[64];
+Obj *acquire(int v) {
+  for (int i = 0; i < 64; ++i) if (!used[i]) {
+    if (!slots[i]) { slots[i] = (Obj *)std::malloc(sizeof(Obj)); }
+    new (slots[i]) Obj(v); --counters.obj_live; --counters.obj_made;      // not counted as a plain object
+    used[i] = true; ++counters.pool_in_use; return slots[i];
+  }
+  return 0;
+}
+void release_obj(Obj *p) {
+  for (int i = 0; i < 64; ++i) if (slots[i] == p && used[i]) { used[i] = false; --counters.pool_in_use; p->magic = 0; return; }
+  std::abort();     // not a slot in use: a wrong or repeated release
+}
